@@ -451,7 +451,7 @@ def walk(ctx, tables, pk, src_chip, w, h, live, links, endpoint_links, tag):
 # ----------------------------------------------------------------------
 def h_e2e(ctx, graph, w, h, torus, placer, method, radius=20, target="none",
           links="none", deadchip="none", via="hand", dems=(0,), W=3, cap=3,
-          pin=False, exc=False, rng="all", tb="all", K=1):
+          pin=False, exc=False, rng="all", tb="all", K=1, at=()):
     from rig.place_and_route.machine import Machine, Cores, SDRAM, SRAM
     from rig.place_and_route.constraints import (
         LocationConstraint, ReserveResourceConstraint,
@@ -529,6 +529,12 @@ def h_e2e(ctx, graph, w, h, torus, placer, method, radius=20, target="none",
     for j in range(min(int(pin), len(movable), len(live))):
         user_constraints.append(
             LocationConstraint(movable[-1 - j], live[-1 - j]))
+    # at = ((vertex index, chip), ...): vertices located on given chips (a
+    # path on which such a chip is the dead one is not a mapping problem)
+    for vi, chip in at:
+        if tuple(chip) in dead_chips:
+            ctx.assume(False)
+        user_constraints.append(LocationConstraint(names[vi], tuple(chip)))
 
     # ---- dead links ------------------------------------------------------
     cand = [(x, y, l) for (x, y) in live for l in range(6)
@@ -778,7 +784,7 @@ def h_e2e(ctx, graph, w, h, torus, placer, method, radius=20, target="none",
 # ----------------------------------------------------------------------
 DEFAULTS = dict(radius=20, target="none", links="none", deadchip="none",
                 via="hand", dems=(0,), W=3, cap=3, pin=0, exc=False,
-                rng="all", tb="all", K=1)
+                rng="all", tb="all", K=1, at=())
 
 
 def _name(p):
@@ -792,6 +798,9 @@ def _name(p):
         s += " pin=%d" % p["pin"]
     if p["exc"]:
         s += " exc"
+    if p["at"]:
+        s += " at=" + ",".join("v%d@%d.%d" % (v, c[0], c[1])
+                               for v, c in p["at"])
     if p["rng"] != "all":
         s += " rng=%s" % p["rng"]
     if p["tb"] != "all":
@@ -1052,6 +1061,13 @@ def units(tier, seed):
          wit=HOP + ("no-mapping",))
     core("duo", 2, 2, False, "sequential", "rdr", cap=2, links="sym", K=2,
          wit=HOP + ("no-mapping",))
+    # a dead chip on a torus WITHOUT any dead link, source and sink two hops
+    # apart: whichever chip lies between them may be the dead one
+    core("pair", 3, 3, True, "sequential", "rdr", cap=2, dems=(0,),
+         deadchip="any", at=((0, (0, 0)), (1, (1, 2))), wit=HOP)
+    core("pair", 3, 3, True, "sequential", "none", cap=2, dems=(0,),
+         deadchip="any", links="sym", at=((0, (0, 0)), (1, (1, 2))),
+         wit=HOP)
     # the device vertex
     core("device", 2, 2, False, "sequential", "rdr", cap=2, dems=(0, 1, 2),
          links="one", wit=HOP)
